@@ -106,6 +106,11 @@ def rule_refcnt_siblings(fx, col):
                     e = 0
                 if nm == 'from_ptr' and null_in:
                     e = 0
+                # an explicit `inc` / `dec` of a nullable kind: the empty value has no count to move
+                if nm == 'inc' and null_ret and _null_path(b, path):
+                    e = 0
+                if nm == 'dec' and null_in:
+                    e = 0
                 if tot != e:
                     bad.append('path %s totals %+d, expected %+d' % (['bb%d' % x for x in path], tot, e))
             col.add('REFCNT-SIBLINGS', '<%s>::%s|count effect' % (kind, nm), not bad and bool(paths),
@@ -175,6 +180,20 @@ def rule_refcnt_siblings(fx, col):
             col.add('REFCNT-SIBLINGS', '<%s>|null symmetry' % kind, sym and same_pred and guarded,
                     'null is produced in into_ptr when %s, in as_ptr when %s; from_ptr tests is_null: %s, inner conversion only when non-null: %s'
                     % (prod['into_ptr'], prod['as_ptr'], from_null, guarded))
+        # the emptiness test of a Weak kind compares the handle with a FRESH empty one (`x.ptr_eq(&Weak::new())`): a comparison of
+        # the handle with itself, or with anything else, makes every (or an arbitrary) value empty
+        for nm in ('into_ptr', 'as_ptr'):
+            b = ms.get(nm)
+            if b is None:
+                continue
+            for bb, t in b.calls(include_cleanup=False):
+                if U.callee_name(t) == 'ptr_eq' and 'Weak' in t['callee'].get('path', '') and len(t['args']) == 2:
+                    a0, a1 = b.origins(t['args'][0]), b.origins(t['args'][1])
+                    fresh = lambda o: any(x[0] == 'call' and U.callee_name(b.term(x[1])) == 'new' and 'Weak' in b.term(x[1])['callee'].get('path', '') for x in o)
+                    mine = lambda o: any(x[0] == 'arg' for x in o)
+                    ok = (fresh(a0) and mine(a1) and not mine(a0)) or (fresh(a1) and mine(a0) and not mine(a1))
+                    col.add('REFCNT-SIBLINGS', '<%s>::%s|empty means equal to a fresh Weak::new()' % (kind, nm), ok,
+                            'ptr_eq compares %s with %s' % (sorted(a0, key=str), sorted(a1, key=str)), b.loc(bb))
         if st.startswith('std::option::Option<'):
             b = ms.get('from_ptr')
             if b is not None:
